@@ -133,6 +133,26 @@ def gen_cases(ctx):
             o = list(names)
             rng.shuffle(o)
             cases.append({"id": "gap%d_s" % j, "naccts": 3, "blocks": blocks, "arrivals": o})
+    # forged numbers on ORPHANS resolved right behind a newly connected main-chain tip (child delivered before its parent):
+    # resolveOrphan's "exactly parent+1" is the only number test such a block meets
+    fam = [(pl, d) for pl in (1, 2, 3) for d in ("+2", "+3", "+5", "same", "zero")]
+    if quick:
+        fam = [(1, "+2"), (2, "+2"), (3, "+3"), (2, "+5"), (2, "same"), (1, "zero"), (3, "+2")]
+    for j, (pl, d) in enumerate(fam):
+        blocks = [{"name": "m%d" % k, "parent": ("m%d" % (k - 1)) if k else "G", "txs": cd.rnd_txs(rng, 1 if k == 0 else 0, 2), "bad": ""}
+                  for k in range(pl)]
+        par = "m%d" % (pl - 1)                          # number pl
+        no = {"+2": pl + 2, "+3": pl + 3, "+5": pl + 5, "same": pl, "zero": 0}[d]
+        blocks.append({"name": "X", "parent": par, "txs": [{"from": 0, "to": 2, "amt": 1}], "bad": "", "no": no})
+        blocks.append({"name": "X2", "parent": "X", "txs": [], "bad": ""})
+        blocks.append({"name": "Y", "parent": par, "txs": [{"from": 1, "to": 2, "amt": 1}], "bad": ""})     # the real next block
+        blocks.append({"name": "Y2", "parent": "Y", "txs": [], "bad": ""})
+        pre = ["m%d" % k for k in range(pl - 1)]
+        orders = [pre + ["X", par, "Y", "Y2"], pre + ["X2", "X", par, "Y", "Y2"]]
+        if not quick:
+            orders.append(pre + ["X", "Y", par, "Y2", "X2"])
+        for k, o in enumerate(orders if not quick else orders[: 1 + (j % 2)]):
+            cases.append({"id": "orph%d_%d" % (j, k), "naccts": 3, "blocks": blocks, "arrivals": o})
     return cases
 
 
